@@ -5,7 +5,7 @@ import glob, json, os, re
 V = os.path.dirname(os.path.dirname(os.path.abspath(__file__)))
 rows = []
 caught = total = 0
-for m in sorted(glob.glob(os.path.join(V, "seeded", "C*", "change*", "meta.json"))):
+for m in sorted(glob.glob(os.path.join(V, "seeded", "C*", "*", "meta.json"))):
     d = json.load(open(m))
     total += 1
     by = []
